@@ -121,7 +121,7 @@ def digest(model, base):
                        'pending': len(sysm.env._events)}, sort_keys=True, default=repr)
 
 
-def run_model(spec, seed, segments, tie, offset=0, system=None):
+def run_model(spec, seed, segments, tie, offset=0, system=None, traced=()):
     """Build and run; returns (digest, events)."""
     from simprocesd.model.factory_floor import Part
     from simprocesd.model.factory_floor.asset import Asset
@@ -141,8 +141,13 @@ def run_model(spec, seed, segments, tie, offset=0, system=None):
         # started from inside an event of the run (asset id -2), so that it is born while the simulation runs
         tick = Ticker(env, 1.25)
         env.schedule_event(0.625, -2, TickerStart(tick), 4.5)
-        for d in segments:
-            m.system.simulate(d, print_summary=False)
+        for k_, d in enumerate(segments):
+            if k_ in traced:
+                from ..engine_evq import scratch_home
+                with scratch_home():
+                    m.system.simulate(d, print_summary=False, trace=True)
+            else:
+                m.system.simulate(d, print_summary=False)
     return digest(m, base), bus.dispatch_serial, m
 
 
@@ -495,6 +500,17 @@ def run(sh):
             differs = d1 != d3
             if differs:
                 sh.count('models_where_other_seed_differs')
+            # (a') the same two consecutive runs, once as they are and once with the second run traced: watching a
+            # run must not change it
+            half = int(total * 4) / 8.0
+            if 0 < half < total:
+                dA, _e, _m = run_model(spec, seed, [half, total - half], 'native', offset=1)
+                dB, _e, _m = run_model(spec, seed, [half, total - half], 'native', offset=1, traced=(1,))
+                if dA != dB:
+                    sh.violation('same_seed_differs', f'two runs with seed {seed} differ when the second of two consecutive '
+                                 f'simulate() calls is traced: {first_diff(dA, dB)}', case, engine='repro')
+                else:
+                    sh.count('traced_vs_untraced_pairs_equal')
             # (b) split vs unsplit under keyed tie-breaks
             k = rng.choice([1, 2, 3])
             cuts = sorted({rng.randrange(1, int(total * 8)) / 8.0 for _ in range(k)})
